@@ -33,6 +33,9 @@ NCPU = os.cpu_count() or 4
 WORKERS = max(2, min(16, NCPU))
 
 
+SCRATCHES = []
+
+
 class Machinery(Exception):
     """The machinery failed to reach a verdict (exit 2)."""
 
@@ -79,6 +82,7 @@ class Ctx:
         self.exhaustive = True
         self.extra = {}
         self.scratch = tempfile.mkdtemp(prefix="vchk_%s_" % pid, dir=tlc.scratch_root())
+        SCRATCHES.append(self.scratch)
         known = load_known()
         self.known = {f["id"]: f for f in known.get("findings", []) if f.get("property") == pid}
 
@@ -105,13 +109,22 @@ class Ctx:
         return r
 
     # ---- spec -> code --------------------------------------------------------------------
+    def case_path(self, tag):
+        return os.path.join(self.scratch, "cases_%s_%d.ndjson" % (tag, len(self.tlc_runs)))
+
     def replay(self, family, cases, rule=None):
-        if not cases:
-            raise Machinery("no cases to replay for %s (vacuous export)" % family)
-        cpath = os.path.join(self.scratch, "cases_%s_%d.ndjson" % (family, len(self.tlc_runs)))
-        with open(cpath, "w") as fh:
-            for c in cases:
-                fh.write(json.dumps(c, separators=(",", ":")) + "\n")
+        """`cases`: a list of JSON values, or the path of an ndjson file written by TLC (case_file=)."""
+        if isinstance(cases, str):
+            cpath = cases
+            if os.path.getsize(cpath) == 0:
+                raise Machinery("no cases to replay for %s (vacuous export)" % family)
+        else:
+            if not cases:
+                raise Machinery("no cases to replay for %s (vacuous export)" % family)
+            cpath = os.path.join(self.scratch, "cases_%s_%d.ndjson" % (family.replace(":", "_"), len(self.tlc_runs)))
+            with open(cpath, "w") as fh:
+                for c in cases:
+                    fh.write(json.dumps(c, separators=(",", ":")) + "\n")
         rpath = cpath + ".report.json"
         p = subprocess.run([VH, "replay", family, cpath, rpath], stdout=subprocess.PIPE,
                            stderr=subprocess.STDOUT, text=True, timeout=3600)
@@ -282,6 +295,60 @@ def check_C13(tier):
     return c.finish()
 
 
+def check_C15(tier):
+    c = Ctx("C15", tier)
+    q = tier == "quick"
+    mt, mcmd = (5, 5) if q else (7, 6)
+    r = c.mc("MC_Command", "MC_C15.cfg", dict(MaxText=mt, MaxCmd=mcmd, Deviations="{}", Emit="Emit"), timeout=1500,
+             label="Parse/Covers/Join machines = declarative; order axioms over all valid commands (ASSUME)")
+    c.mc("MC_Command", "MC_C15.cfg", dict(MaxText=2, MaxCmd=4, Deviations='{"CoversNoBoundary"}', Emit=""),
+         expect_violation=["CoversIsPrefixOrder", "NoTextualPrefixCover"], label="sensitivity: no boundary test")
+    c.replay("command", r.cases, rule="every text over {/,a,b,A} up to length %d through Parse/IsValid; every pair of valid commands up "
+             "to length %d through Covers/Segments; Join/New of up to 2 segments; non-trivial = rejected or multi-segment texts, covering or "
+             "shared-textual-prefix pairs, joins" % (mt, mcmd))
+    for k in range(1 if q else 4):
+        tr = c.drive("command", 4000 if q else 15000, seed_offset=k)
+        c.validate("command", "TraceCommand", "TraceCommand.cfg", tr,
+                   rule="random Unicode commands (lower/upper case letters, empty segments) judged by TraceCommand")
+    return c.finish()
+
+
+def check_C12(tier):
+    c = Ctx("C12", tier)
+    q = tier == "quick"
+    cp = c.case_path("C12")
+    c.mc("MC_Selector", "MC_C12.cfg", dict(MaxSegs=2 if q else 3, Deviations="{}", Emit="EmitR"), timeout=1500, case_file=cp,
+         label="resolver machine = fold of the declarative step; compositional; slice arithmetic = Python (ASSUME)")
+    for dev in ["IteratorMapEarlyReturn", "EmptyFieldIsIndex0", "OptIndexWrongKindErrs", "OptFailEarlyReturn"]:
+        c.mc("MC_Selector", "MC_C12.cfg", dict(MaxSegs=2, Deviations='{"%s"}' % dev, Emit=""),
+             expect_violation=["ShapeIsFold", "Compositional"], label="sensitivity: " + dev)
+    c.replay("selector", cp, rule="every selector of <=%d segments from a 20-segment alphabet (fields dot/bracket/empty, indexes incl. "
+             "negative/out of range, slices incl. reversed/clamped, iterators, optional variants) on 21 values of every kind; each "
+             "case also replays every prefix and the suffix from the real intermediate; non-trivial = outcome is a value or "
+             "'no value'" % (2 if q else 3))
+    for k in range(1 if q else 4):
+        tr = c.drive("selector", 3000 if q else 12000, seed_offset=k)
+        c.validate("selector", "TraceSelector", "TraceSelector.cfg", tr,
+                   rule="random selectors (<=4 segments, walking the value) on random values of depth <=3, judged by TraceSelector")
+    return c.finish()
+
+
+def check_C14(tier):
+    c = Ctx("C14", tier)
+    q = tier == "quick"
+    cp = c.case_path("C14")
+    c.mc("MC_Selector", "MC_C14_sel.cfg", dict(MaxText=5 if q else 6, Deviations="{}", Emit="EmitT"), timeout=1500, case_file=cp,
+         label="tokenizer machine drops nothing; print-then-parse keeps the segments")
+    c.mc("MC_Selector", "MC_C14_sel.cfg", dict(MaxText=4, Deviations='{"QuoteTailDropped"}', Emit=""),
+         expect_violation=["NothingDropped", "PrintParse"], label="sensitivity: QuoteTailDropped")
+    c.replay("seltext", cp, rule="every text '.'+w, |w|<=%d over {. [ ] \" ? : \\ a 0 1 -}; non-trivial = accepted by the model or "
+             "by the real parser" % (4 if q else 5))
+    tr = c.drive("seltext", 4000 if q else 30000)
+    c.validate("seltext", "TraceSelector", "TraceSelector.cfg", tr, rule="random selector texts from a richer alphabet; accepted texts "
+               "must be spelled completely by their segments (TraceSelector)")
+    return c.finish()
+
+
 CHAIN = {
     "C01": dict(q="MC_C01_q.cfg", t=["MC_C01_t.cfg", "MC_C01_t4.cfg"], dev='{"AudAsSubject"}',
                 rule="every invocation x proof list over principals {A,B,M}(+C), links over all principals, Undef subject and "
@@ -295,7 +362,7 @@ CHAIN = {
     "C04": dict(q="MC_C04_q.cfg", t=["MC_C04_t.cfg"], dev=None,
                 rule="every combination of present/absent/inverted bounds on invocation and links x probe instants 1,3,5 (Tick); "
                      "non-trivial = some token invalid at the probe instant"),
-    "C05": dict(q="MC_C05_q.cfg", t=["MC_C05_t.cfg"], dev='{"AudAsSubject"}',
+    "C05": dict(q="MC_C05_q.cfg", t=["MC_C05_t.cfg", "MC_C05_t2.cfg"], dev='{"AudAsSubject"}',
                 rule="constructively generated conforming chains (repeated principals, attenuating commands, satisfiable policies, "
                      "valid windows, irrelevant fields free); non-trivial = every rule holds (must be allowed)"),
 }
@@ -308,9 +375,11 @@ def check_chain(pid):
         spec = CHAIN[pid]
         cfgs = [spec["q"]] if q else spec["t"]
         for cfg in cfgs:
-            r = c.mc("MC_Chain", cfg, dict(Deviations="{}", Emit="Emit"), label="ideal machine = declarative rules", timeout=1500)
-            c.replay("chain:" + pid, r.cases, rule=spec["rule"])
-            del r
+            cp = c.case_path(pid)
+            c.mc("MC_Chain", cfg, dict(Deviations="{}", Emit="Emit"), label="ideal machine = declarative rules", timeout=1500,
+                 case_file=cp)
+            c.replay("chain:" + pid, cp, rule=spec["rule"])
+            os.remove(cp)
         if spec["dev"]:
             c.mc("MC_Chain", spec["q"], dict(Deviations=spec["dev"], Emit=""),
                  expect_violation=["Agree", "AudIrrelevant", "SoundPrincipals", "SoundCommands", "Complete"],
@@ -325,7 +394,7 @@ def check_chain(pid):
     return run
 
 
-CHECKS = {"C13": check_C13}
+CHECKS = {"C13": check_C13, "C15": check_C15, "C12": check_C12, "C14": check_C14}
 for _p in CHAIN:
     CHECKS[_p] = check_chain(_p)
 
@@ -404,6 +473,9 @@ def main():
     except subprocess.TimeoutExpired as e:
         log("MACHINERY-ERROR property=%s: timeout %s" % (pid, e))
         return 2
+    finally:
+        for d in SCRATCHES:
+            shutil.rmtree(d, ignore_errors=True)
 
 
 if __name__ == "__main__":
